@@ -17,7 +17,9 @@ FRESH = re.compile(rb'x[0-9]+__fresh')
 
 
 def make_case(r):
-    kind = r.choice(['general', 'fresh', 'fresh', 'vars', 'rename', 'enum'])
+    kind = r.choice(['general', 'fresh', 'fresh', 'vars', 'rename', 'enum',
+                     'cc-delay'])
+    cc_rules = None
     if kind == 'general':
         s = workload.small_script(r, r.choice(['small', 'medium']))
         text = workload.render_with_noise(r, s.nested(), comments=False)
@@ -67,6 +69,16 @@ def make_case(r):
         pred = rules[0]
         extra = r.choice([[], ['--disable-all', '--constants',
                                '--erase-node']])
+    elif kind == 'cc-delay':
+        # a cross-check command with its own, larger time limit: how long it
+        # takes (below that limit) must not matter
+        lines = ['(declare-const a Int)', '(declare-const b Int)',
+                 '(assert (> a 0))', '(assert (< b a))', '(check-sat)']
+        text = '\n'.join(lines) + '\n'
+        rules = realrun.simple_spec('count:assert>=1 has:a &')
+        pred = rules[0]
+        cc_rules = 'cc'
+        extra = ['--disable-all', '--erase-node', '--timeout-cc', '8']
     elif kind == 'vars':
         n = r.randint(4, 8)
         names = [f'{r.choice("pqrs")}{i}' for i in range(n)]
@@ -91,10 +103,12 @@ def make_case(r):
         extra = ['--disable-all', '--simplify-symbol-names', '--erase-node',
                  '--replace-by-variable']
     strat = r.choice(workload.STRATEGIES)
-    opts = ['--strategy', strat, '-j', '1', '--timeout', '20'] + extra + \
+    opts = ['--strategy', strat, '-j', '1', '--timeout',
+            '0.4' if kind == 'cc-delay' else '20'] + extra + \
         workload.format_options(r)
     return text, rules, opts, {'input': text, 'rules': rules, 'kind': kind,
-                               'strategy': strat, 'opts': opts}
+                               'strategy': strat, 'opts': opts,
+                               'cc': cc_rules is not None}
 
 
 def variants(r):
@@ -116,8 +130,20 @@ def run_case(res, base, case, r, idx):
         if v['inj']:
             cfg['delay'] = v['inj']
         wd = os.path.join(base, f'c{idx}_{k}')
+        cc_spec = None
+        if desc.get('cc'):
+            # the cross check takes 0 / 0.6 s per candidate in the variants:
+            # always below its own limit (8 s), in half of the variants above
+            # the *main* command's limit (0.4 s)
+            d_us = 600000 if k % 2 else 0
+            cc_spec = [realrun.rule('has:declare-const', 0, 'cc ok\n', '',
+                                    delay_us=d_us),
+                       realrun.rule('all', 3, 'cc other\n', '',
+                                    delay_us=d_us)]
         run = realrun.run_ddsmt(wd, text, rules, opts=opts, launcher=cfg,
-                                hashseed=v['hashseed'], delay=v['delay'])
+                                hashseed=v['hashseed'],
+                                delay=None if desc.get('cc') else v['delay'],
+                                cc_spec=cc_spec)
         res.count('evaluations')
         shutil.rmtree(wd, ignore_errors=True)
         if run.timed_out or run.rc != 0 or run.uncaught_traceback:
